@@ -93,14 +93,43 @@ func (m *migration) next(rnd *rand.Rand) bool {
 func keysInSlots(rnd *rand.Rand, nslots, perSlot int) ([]string, map[int]bool) {
 	var keys []string
 	slots := map[int]bool{}
+	edges := nslots%2 == 0 || perSlot == 3
 	for s := 0; s < nslots; s++ {
 		tag := fmt.Sprintf("t%d", rnd.Intn(100000))
+		if s < 2 && edges {
+			tag = edgeSlotTags()[s] // the first and the last slot of the cluster, in every other key set
+		}
 		slots[fakecluster.Slot([]byte(tag))] = true
 		for i := 0; i < perSlot; i++ {
 			keys = append(keys, fmt.Sprintf("%c:{%s}.%d", "slhS"[rnd.Intn(4)], tag, i))
 		}
 	}
 	return keys, slots
+}
+
+var edgeTags struct {
+	once sync.Once
+	t    [2]string
+}
+
+// edgeSlotTags returns hash tags for slot 0 and slot 16383.
+func edgeSlotTags() [2]string {
+	edgeTags.once.Do(func() {
+		for i := 0; edgeTags.t[0] == "" || edgeTags.t[1] == ""; i++ {
+			tag := fmt.Sprintf("e%d", i)
+			switch fakecluster.Slot([]byte(tag)) {
+			case 0:
+				if edgeTags.t[0] == "" {
+					edgeTags.t[0] = tag
+				}
+			case fakecluster.NumSlots - 1:
+				if edgeTags.t[1] == "" {
+					edgeTags.t[1] = tag
+				}
+			}
+		}
+	})
+	return edgeTags.t
 }
 
 type c04Monitor struct {
